@@ -21,7 +21,7 @@
 int __real_pthread_create(pthread_t *, const pthread_attr_t *, void *(*)(void *), void *);
 int __real_pthread_join(pthread_t, void **);
 
-#define MAXTRIALS 48
+#define MAXTRIALS 400
 #define NKINDS 10
 static const size_t SIZES[] = { 9, 16, 17, 24, 40, 63, 64, 100, 200 };
 #define NSIZES (sizeof SIZES / sizeof SIZES[0])
@@ -31,7 +31,7 @@ typedef struct { uint32_t seed; uint8_t kind; uint8_t n; uint16_t idx; } tparams
 static unsigned char *arr;
 static size_t esz;
 static size_t hdr;              /* 0, or 8 when every element starts with its own trial function (your_trial_func == NULL) */
-static int fn_called[48];       /* which of the per-trial functions ran the trial (1 or 2) */
+static int fn_called[MAXTRIALS];       /* which of the per-trial functions ran the trial (1 or 2) */
 static int ntrials;
 static int calls[MAXTRIALS], active, max_active;
 static int worker_of[MAXTRIALS]; static int worker_trials[BATON_MAX + 1];
@@ -347,8 +347,8 @@ static void trial_fn(void *vp)
     }
 }
 /* per-trial functions (documented use: your_trial_func == NULL, the first member of each trial struct is the function to call) */
-static void trial_fn_a(void *vp) { const ptrdiff_t off = (unsigned char *)vp - arr; if (off >= 0 && (size_t)off / esz < 48) fn_called[(size_t)off / esz] = 1; trial_fn(vp); }
-static void trial_fn_b(void *vp) { const ptrdiff_t off = (unsigned char *)vp - arr; if (off >= 0 && (size_t)off / esz < 48) fn_called[(size_t)off / esz] = 2; trial_fn(vp); }
+static void trial_fn_a(void *vp) { const ptrdiff_t off = (unsigned char *)vp - arr; if (off >= 0 && (size_t)off / esz < MAXTRIALS) fn_called[(size_t)off / esz] = 1; trial_fn(vp); }
+static void trial_fn_b(void *vp) { const ptrdiff_t off = (unsigned char *)vp - arr; if (off >= 0 && (size_t)off / esz < MAXTRIALS) fn_called[(size_t)off / esz] = 2; trial_fn(vp); }
 
 static void *ref_thread(void *vp)
 {
@@ -474,13 +474,28 @@ static void ex_run(const plan *p)
     if (ntrials < nworkers) PROBE("exp.fewer_trials_than_workers");
     if (ntrials == nworkers) PROBE("exp.trials_equal_workers");
     if (ntrials > 3 * nworkers) PROBE("exp.many_more_trials_than_workers");
+    if (ntrials >= 64 * nworkers) PROBE("exp.trials_ge_64_per_worker");
     free(arr); free(refarr); free(seq_arr);
 }
 
 static void ex_gen(plan *p, uint64_t seed, const char *cfg)
 {
-    (void)cfg;
     vrng r; vrng_seed(&r, seed);
+    if (cfg && strstr(cfg, "many=1")) {
+        /* very many short trials for few workers (whatever a dispenser does differently when the trials outnumber the cores by far),
+         * some of which give up and take their worker with them */
+        const int nw = 1 + (int)vrng_below(&r, 3);
+        const int nt = 64 * nw + (int)vrng_below(&r, (uint64_t)(MAXTRIALS - 64 * nw));
+        plan_add(p, "INIT", 6, (int64_t)(nt - 1), (int64_t)(nw - 1), (int64_t)vrng_below(&r, NSIZES), (int64_t)(vrng_next(&r) >> 16),
+                 (int64_t)(10 + vrng_below(&r, 91)), (int64_t)vrng_below(&r, 30));
+        if (vrng_chance(&r, 1, 4)) plan_add(p, "PERFN", 1, (int64_t)1);
+        static const int cheap[] = { 0, 3, 0, 3, 9, 1, 6 };
+        for (int i = 0; i < nt; i++) {
+            const int kind = vrng_chance(&r, 1, 40) ? 9 : cheap[vrng_below(&r, vrng_chance(&r, 1, 8) ? 7 : 4)];
+            plan_add(p, "TRIAL", 4, (int64_t)i, (int64_t)kind, (int64_t)vrng_below(&r, 100000), (int64_t)vrng_below(&r, 40));
+        }
+        return;
+    }
     const int nw = 1 + (int)vrng_below(&r, 9);
     int nt;
     switch (vrng_below(&r, 5)) {
